@@ -73,8 +73,19 @@ def candidates():
 
 
 def sh(cmd, cwd=None, env=None, timeout=1800):
-    r = subprocess.run(cmd, cwd=cwd, env=env, shell=isinstance(cmd, str), stdout=subprocess.PIPE, stderr=subprocess.STDOUT, text=True, timeout=timeout)
-    return r.returncode, r.stdout
+    # own process group, killed as a whole on timeout (a mutant can make a proc macro or a test loop forever)
+    import signal
+    p = subprocess.Popen(cmd, cwd=cwd, env=env, shell=isinstance(cmd, str), stdout=subprocess.PIPE, stderr=subprocess.STDOUT, text=True, start_new_session=True)
+    try:
+        out, _ = p.communicate(timeout=timeout)
+        return p.returncode, out
+    except subprocess.TimeoutExpired:
+        try:
+            os.killpg(p.pid, signal.SIGKILL)
+        except OSError:
+            pass
+        p.wait()
+        return 124, "TIMEOUT"
 
 
 def run_mutant(slot, mut, idx):
